@@ -213,6 +213,12 @@ fn run_vectors(path: &str, out: &str) {
                         Ok((n, c)) => r.cmp(n == enc.len() && c == enc.len(), v.id, pn, form, "skip", || json!({"reported": n, "consumed": c, "encoded": enc.len()})),
                         Err(e) => r.bad(v.id, pn, form, "skip-err", json!(e)),
                     }
+                    if p == Proto::Compact && v.need <= SKIP_BUDGET {
+                        match skip_state_compact(&input, v.t) {
+                            None => r.ok(),
+                            Some(d) => r.bad(v.id, pn, form, "skip-state", json!(d)),
+                        }
+                    }
                 }
             }
         }
@@ -739,7 +745,25 @@ mod wire {
                     let mut b = LinkedBytes::new();
                     go!(compact::TCompactOutputProtocol::new(&mut b, k == BufKind::LinkedZc), flatten_linked(&b), b)
                 }
-                (Proto::Unsafe, _) => Err("n/a".into()),
+                (Proto::Unsafe, _) => {
+                    // exact-size buffer (size from TBinaryProtocol<()>, the documented idiom) followed by guard bytes
+                    let size = binary::TBinaryProtocol::new((), false).message_begin_len(id);
+                    let mut b = BytesMut::with_capacity(size + 16);
+                    b.resize(size + 16, 0xA5);
+                    let (n, idx);
+                    {
+                        let sl = unsafe { std::slice::from_raw_parts_mut(b.as_mut_ptr(), size) };
+                        let mut p = unsafe { pilota::thrift::binary_unsafe::TBinaryUnsafeOutputProtocol::new(&mut b, sl, false) };
+                        n = p.message_begin_len(id);
+                        p.write_message_begin(id).map_err(e)?;
+                        p.write_message_end().map_err(e)?;
+                        idx = p.index();
+                    }
+                    if idx > size || b[size..].iter().any(|x| *x != 0xA5) {
+                        return Err(format!("guard: index {idx} size {size}"));
+                    }
+                    Ok((b[..idx].to_vec(), n))
+                }
             }
         }));
         r.unwrap_or_else(|e| Err(panic_msg(e)))
@@ -929,6 +953,15 @@ mod wire {
                                     r.cmp(len == want.len(), id, p.name(), k.name(), "env-len", || json!({"reported": len, "written": want.len()}));
                                 }
                                 Err(e) => r.bad(id, p.name(), k.name(), "env-write-err", json!(e)),
+                            }
+                        }
+                        if p == Proto::Bin {
+                            match write_env(Proto::Unsafe, BufKind::BytesMut, &ident) {
+                                Ok((b, len)) => {
+                                    r.cmp(b == want, id, "unsafe", "bytesmut", "env-bytes", || json!({"got": b, "want": want}));
+                                    r.cmp(len == want.len(), id, "unsafe", "bytesmut", "env-len", || json!({"reported": len, "written": want.len()}));
+                                }
+                                Err(e) => r.bad(id, "unsafe", "bytesmut", "env-write-err", json!(e)),
                             }
                         }
                         let mut input = want.clone();
